@@ -191,7 +191,22 @@ def check_read_pool(u):
     args = [a.strip() for a in re.sub(r"\s+", " ", src[op + 1:match_delim(msk, op)]).split(",") if a.strip()]
     if len(args) < 4 or args[2] != "ro_pool" or args[3] != "rw_pool":
         failures.append(("read-pool-is-passed-as-read-argument", _line(src, op), "Self::new arguments are %s" % args))
-    return obligations, failures, ["%s:%d ro_pool chain %s" % (file, _line(src, st), names)]
+    # what `read()` / `read_blocking()` hand out comes from the read pool and from nowhere else
+    obligations.append("read-connections-come-from-the-read-only-pool-only")
+    samples = ["%s:%d ro_pool chain %s" % (file, _line(src, st), names)]
+    for fn in ("read", "read_blocking"):
+        try:
+            s2, m2, o2, c2 = _fn_body(file, fn, u.get("impl"))
+        except LostAnchor:
+            continue
+        b2 = m2[o2:c2]
+        if not re.search(r"\bself\s*\.\s*0\s*\.\s*read\s*\.\s*get\s*\(", b2):
+            failures.append(("read-connections-come-from-the-read-only-pool-only", _line(s2, o2), "`%s` does not take its connection from `self.0.read`" % fn))
+        other = re.search(r"\bself\s*\.\s*0\s*\.\s*(write\w*|\w*tx)\b|\bdedicated\b|\bclient_dedicated\b", b2)
+        if other:
+            failures.append(("read-connections-come-from-the-read-only-pool-only", _line(s2, o2 + other.start()), "`%s` can hand out a connection that is not from the read-only pool (`%s`)" % (fn, other.group(0))))
+        samples.append("%s:%d %s() -> self.0.read.get()" % (file, _line(s2, o2), fn))
+    return obligations, failures, samples
 
 
 def _match_arms(msk, mo, mc):
@@ -1806,7 +1821,118 @@ def check_loop_runs_to_end(u):
     return [name], failures, ["%s:%d `%s {…}`: left early only by return Err / ?" % (file, _line(src, ls), hdr[:80])]
 
 
-CHECKS = {"loop_runs_to_end": check_loop_runs_to_end, "own_actor_guard": check_own_actor_guard, "loops_unfiltered": check_loops_unfiltered, "lagged_arm_returns": check_lagged_arm_returns, "apply_trigger_waits": check_apply_trigger_waits, "last_id_published": check_last_id_published, "sub_select_only": check_sub_select_only, "broadcast_delivery": check_broadcast_delivery, "updates_row_binding": check_updates_row_binding, "row_bindings": check_row_bindings, "feeds_fed": check_feeds_fed, "exists_binding": check_exists_binding, "seqmerge_params": check_seqmerge_params, "chunker_ranges": check_chunker_ranges, "persist_before_publish": check_persist_before_publish, "schema_reload": check_schema_reload, "cluster_id_fresh": check_cluster_id_fresh, "schema_ddl": check_schema_ddl, "schema_atomic": check_schema_atomic, "seq_range_guard": check_seq_range_guard, "exits_covered": check_exits_covered, "sub_lag_stops": check_sub_lag_stops, "single_snapshot": check_single_snapshot, "offer_loops": check_offer_loops, "speedy_prealloc": check_speedy_prealloc, "from_conn": check_from_conn, "sql_actor_scoping": check_sql_actor_scoping, "local_write_sequence": check_local_write_sequence, "insert_local_changes": check_insert_local_changes, "authz_layer": check_authz_layer, "readonly_guard": check_readonly_guard, "read_pool": check_read_pool}
+def check_chunker_error_stops(u):
+    """C05/C08/C07: the chunker's contract (unit c08_chunker) is about rows that decode; when a row of the result set fails
+    (`Some(Err(_))` from ChunkedChanges::next, `Err(_)` when iterating it) the chunker keeps the changes it had collected and is NOT
+    finished.  Its consumer must stop there: carrying on would later emit a changeset that announces the whole seq range while the failed
+    row's change is missing from it.  Obligation: the error arm of the loop that consumes the chunker leaves the loop (`break` / `return`),
+    and does not `continue`."""
+    file = u["file"]
+    src, msk, o, c = _fn_body(file, u["fn"])
+    body = msk[o:c]
+    name = "a-failed-row-ends-the-answer-for-this-range"
+    # the match over what the chunker yields: `match chunked.next() {` or `for x in chunked { match x {`
+    ms = list(re.finditer(r"\bmatch\s+(?:%s\s*\.\s*next\s*\(\s*\)|%s)\s*\{" % (u.get("chunker", "chunked"), u.get("item", "changes_seqs")), body))
+    if not ms:
+        raise LostAnchor("%s: the match over the chunker's output was not found" % u["fn"])
+    failures, samples = [], []
+    for m in ms:
+        mo = o + m.end() - 1
+        mc = match_delim(msk, mo)
+        arms = _match_arms(msk, mo, mc)
+        err = [a for a in arms if re.match(r"(Some\s*\(\s*)?Err\s*\(", a[0])]
+        if not err:
+            failures.append((name, _line(src, mo), "no arm handles a failed row: it would be swallowed by a catch-all"))
+            continue
+        for pat, bs, be in err:
+            blk = msk[bs:be]
+            if re.search(r"\bcontinue\b", blk) or not re.search(r"\b(break|return)\b", blk):
+                failures.append((name, _line(src, bs), "the `%s` arm does not leave the loop: the chunker is resumed after a failed row and will announce a seq range it does not fully carry" % pat.strip()[:40]))
+            samples.append("%s:%d `%s` arm leaves the loop" % (file, _line(src, bs), pat.strip()[:40]))
+    return [name], failures, samples
+
+
+def check_snapshot_label(u):
+    """C12: the snapshot a new subscriber receives ends with `EndOfQuery { change_id }`; the stream then continues with change_id + 1.  That
+    id must describe the very rows that were sent: it is read from the change log (`MAX(id) FROM changes`) on the SAME connection /
+    transaction the rows were read from (unit c12_lag_stops decides that the caller passes one transaction), and it is also what
+    all_rows returns to catch_up_sub.  The matcher's in-memory `last_change_id_sent` runs ahead of committed state during a batch."""
+    file = u["file"]
+    src, msk, o, c = _fn_body(file, u["fn"], u.get("impl"))
+    body = msk[o:c]
+    name = "snapshot-is-labelled-with-the-change-id-read-with-its-rows"
+    failures, samples = [], []
+    m = re.search(r"QueryEvent\s*::\s*EndOfQuery\s*\{", body)
+    if not m:
+        raise LostAnchor("%s: QueryEvent::EndOfQuery not sent" % u["fn"])
+    bo = o + m.end() - 1
+    bc = match_delim(msk, bo)
+    fm = re.search(r"\bchange_id\s*:\s*Some\s*\(\s*(\w+)\s*\)|\bchange_id\s*:\s*(\w+)\b", msk[bo:bc])
+    if not fm:
+        raise Unsupported("EndOfQuery change_id is not a plain variable")
+    var = fm.group(1) or fm.group(2)
+    # the binding of that variable
+    bind = None
+    for bind in re.finditer(r"\blet\s+(?:mut\s+)?%s\b[^=;]*=" % re.escape(var), msk[o:bo]):
+        pass
+    if not bind:
+        raise LostAnchor("binding of `%s` not found" % var)
+    bs = o + bind.end()
+    be = bs
+    while be < c and msk[be] != ";":
+        if msk[be] in "([{":
+            be = match_delim(msk, be)
+        be += 1
+    rhs_m = msk[bs:be]
+    rhs = src[bs:be]
+    conn_param = re.search(r"\b(\w+)\s*:\s*&\s*(?:rusqlite\s*::\s*)?Connection\b", src[max(0, o - 600):o])
+    cname = conn_param.group(1) if conn_param else "conn"
+    if not re.match(r"\s*%s\s*\." % re.escape(cname), rhs_m) or not re.search(r"MAX\s*\(\s*id\s*\)", rhs, re.I) or not re.search(r"\bFROM\s+changes\b", rhs, re.I):
+        failures.append((name, _line(src, bs), "`%s` (sent as the end-of-query change id) is not read as MAX(id) FROM changes on `%s`, the connection the rows came from: `%s`" % (var, cname, re.sub(r"\s+", " ", rhs).strip()[:90])))
+    # the rows come from the same connection
+    if not re.search(r"\b%s\s*\.\s*prepare(_cached)?\s*\(" % re.escape(cname), body):
+        failures.append((name, _line(src, o), "the snapshot rows are not read from `%s`" % cname))
+    # and the same id is what the caller gets back
+    tail = re.sub(r"\s+", "", msk[bc:c])
+    if not re.search(r"Ok\(%s\)\}?$" % re.escape(var), tail):
+        failures.append((name, _line(src, bc), "all_rows does not return the id it labelled the snapshot with"))
+    samples.append("%s:%d EndOfQuery.change_id = %s = %s" % (file, _line(src, bo), var, re.sub(r"\s+", " ", rhs).strip()[:80]))
+    return [name], failures, samples
+
+
+def check_cursor_writers(u):
+    """C12 (client clause): the client's position in the stream, `last_change_id`, moves only through the two functions that are under
+    contract in unit c12_client — handle_eoq (snapshot label) and handle_change (accepts id == last + 1, reports MissedChange otherwise) —
+    and the constructor.  Any other assignment moves the cursor without the gap check."""
+    file = u["file"]
+    src = open(os.path.join(REPO, file)).read()
+    msk = mask(src)
+    name = "client-cursor-moves-only-through-the-checked-functions"
+    allowed = set(u.get("writers", ["handle_change", "handle_eoq"]))
+    failures, samples = [], []
+    # function spans
+    spans = []
+    for m in re.finditer(r"\bfn\s+(\w+)\s*(<[^>{]*>)?\s*\(", msk):
+        k = m.end() - 1
+        k = match_delim(msk, k) + 1
+        while k < len(msk) and msk[k] not in "{;":
+            k += 1
+        if k < len(msk) and msk[k] == "{":
+            spans.append((m.group(1), k, match_delim(msk, k)))
+    n = 0
+    for m in re.finditer(r"\b(?:self|this)\s*\.\s*last_change_id\s*=[^=]", msk):
+        n += 1
+        inner = [sp for sp in spans if sp[1] < m.start() < sp[2]]
+        fn = max(inner, key=lambda sp: sp[1])[0] if inner else "?"
+        if fn not in allowed:
+            failures.append((name, _line(src, m.start()), "`last_change_id` is assigned in `%s`, outside %s: the cursor moves without the contiguity check" % (fn, sorted(allowed))))
+        samples.append("%s:%d last_change_id assigned in %s" % (file, _line(src, m.start()), fn))
+    if n == 0:
+        raise LostAnchor("no assignment to last_change_id found in %s" % file)
+    return [name], failures, samples
+
+
+CHECKS = {"cursor_writers": check_cursor_writers, "snapshot_label": check_snapshot_label, "chunker_error_stops": check_chunker_error_stops, "loop_runs_to_end": check_loop_runs_to_end, "own_actor_guard": check_own_actor_guard, "loops_unfiltered": check_loops_unfiltered, "lagged_arm_returns": check_lagged_arm_returns, "apply_trigger_waits": check_apply_trigger_waits, "last_id_published": check_last_id_published, "sub_select_only": check_sub_select_only, "broadcast_delivery": check_broadcast_delivery, "updates_row_binding": check_updates_row_binding, "row_bindings": check_row_bindings, "feeds_fed": check_feeds_fed, "exists_binding": check_exists_binding, "seqmerge_params": check_seqmerge_params, "chunker_ranges": check_chunker_ranges, "persist_before_publish": check_persist_before_publish, "schema_reload": check_schema_reload, "cluster_id_fresh": check_cluster_id_fresh, "schema_ddl": check_schema_ddl, "schema_atomic": check_schema_atomic, "seq_range_guard": check_seq_range_guard, "exits_covered": check_exits_covered, "sub_lag_stops": check_sub_lag_stops, "single_snapshot": check_single_snapshot, "offer_loops": check_offer_loops, "speedy_prealloc": check_speedy_prealloc, "from_conn": check_from_conn, "sql_actor_scoping": check_sql_actor_scoping, "local_write_sequence": check_local_write_sequence, "insert_local_changes": check_insert_local_changes, "authz_layer": check_authz_layer, "readonly_guard": check_readonly_guard, "read_pool": check_read_pool}
 
 
 def run_unit(prop, u, tier, ctx, here):
